@@ -314,17 +314,17 @@ def shrink(profile, config, ops, key, budget=400):
             return False
         tests[0] += 1
         try:
-            r = execute_ops(profile, config, cand)
+            r = exec_isolated(profile, config, cand)
         except Exception:  # harness trouble while shrinking: candidate not accepted
             return False
-        return _vkey(profile, r) == key
+        return r["key"] == key
 
     cur = list(ops)
     # the failing step is the last executed one; cut the tail first
-    r = execute_ops(profile, config, cur)
-    if _vkey(profile, r) != key:
+    r = exec_isolated(profile, config, cur)
+    if r["key"] != key:
         return cur
-    cur = cur[: r.step + 1]
+    cur = cur[: r["step"] + 1]
     n = 2
     while len(cur) >= 2 and tests[0] < budget:
         chunk = max(1, len(cur) // n)
@@ -374,6 +374,64 @@ def load_known(prop):
 
 
 # --------------------------------------------------------------------------------------
+# isolation: every run (and every shrinking candidate) executes in a forked child of a
+# process that has only IMPORTED the library, so one seed is one execution from the
+# library's import-time state - whatever the library keeps between calls (caches, module-
+# or class-level variables) can influence a run only through that run's own history, and a
+# replay file reproduces it in a fresh interpreter.
+# --------------------------------------------------------------------------------------
+ISOLATE = os.environ.get("DSIM_ISOLATE", "1") != "0"
+
+
+def in_child(fn, *args, timeout=900):
+    """fn(*args) in a forked child; returns ("ok", value) or ("err", text)."""
+    import pickle
+    import signal
+
+    r, w = os.pipe()
+    pid = os.fork()
+    if pid == 0:
+        data = b""
+        try:
+            os.close(r)
+            signal.alarm(timeout)
+            data = pickle.dumps(("ok", fn(*args)))
+        except BaseException:  # noqa: BLE001 - reported to the parent
+            try:
+                data = pickle.dumps(("err", traceback.format_exc()))
+            except Exception:  # noqa: BLE001
+                data = b""
+        try:
+            with os.fdopen(w, "wb") as f:
+                f.write(data)
+        finally:
+            os._exit(0)
+    os.close(w)
+    with os.fdopen(r, "rb") as f:
+        data = f.read()
+    _, status = os.waitpid(pid, 0)
+    if not data:
+        return ("err", f"child process died without a result (wait status {status})")
+    return pickle.loads(data)
+
+
+def _exec_summary(profile, config, ops):
+    """Execute ops; picklable summary (violation key, step, message, digest)."""
+    r = execute_ops(profile, config, ops)
+    return {"key": _vkey(profile, r), "step": r.step, "message": r.violation.message[:2000] if r.violation else None, "digest": r.digest,
+            "oracle": r.violation.oracle if r.violation else None}
+
+
+def exec_isolated(profile, config, ops):
+    if not ISOLATE:
+        return _exec_summary(profile, config, ops)
+    st, out = in_child(_exec_summary, profile, config, ops)
+    if st != "ok":
+        raise HarnessError("isolated execution failed: " + str(out)[-1500:])
+    return out
+
+
+# --------------------------------------------------------------------------------------
 # worker side
 # --------------------------------------------------------------------------------------
 _PROFILE = None
@@ -388,6 +446,23 @@ def _worker_chunk(args):
         faulthandler.cancel_dump_traceback_later()
 
 
+def _one_run(seed, i):
+    """Generate and execute run i; picklable summary."""
+    profile = _PROFILE
+    r = generate_run(profile, seed, i)
+    ah = hashlib.sha256(
+        canon([[o.get("op"), o.get("inplace"), o.get("fault"), oc] for o, oc in zip(r.ops, r.outcomes)]).encode()
+    ).hexdigest()[:16]
+    shaf = sum(v for k, v in r.stats.c.items() if k.startswith("oracle/") and k != "oracle/value")
+    out = {"stats": dict(r.stats.c), "nsteps": r.nsteps, "digest": r.digest, "ah": ah, "nontrivial": bool(r.nsteps >= 2 and shaf > 0), "shape": r.shape,
+           "config": r.config, "ops": r.ops, "outcomes": r.outcomes, "violation": None}
+    if r.violation is not None:
+        out["violation"] = {"sig": _vkey(profile, r), "oracle": r.violation.oracle, "message": r.violation.message[:2000], "step": r.step}
+    else:
+        out["ops"], out["outcomes"] = r.ops[:12], r.outcomes[:12]  # only a sample is needed
+    return out
+
+
 def _do_chunk(seed, idxs, want_ops):
     profile = _PROFILE
     agg = collections.Counter()
@@ -398,54 +473,57 @@ def _do_chunk(seed, idxs, want_ops):
     harness = []
     shapes = set()
     for i in idxs:
-        try:
-            r = generate_run(profile, seed, i)
-        except SimCrash:
-            harness.append((i, "SimCrash escaped"))
-            continue
-        except Exception:
-            harness.append((i, traceback.format_exc()))
-            continue
-        agg.update(r.stats.c)
+        if ISOLATE:
+            st, r = in_child(_one_run, seed, i)
+            if st != "ok":
+                harness.append((i, str(r)))
+                continue
+        else:
+            try:
+                r = _one_run(seed, i)
+            except SimCrash:
+                harness.append((i, "SimCrash escaped"))
+                continue
+            except Exception:
+                harness.append((i, traceback.format_exc()))
+                continue
+        agg.update(r["stats"])
         agg["runs"] += 1
-        agg["steps"] += r.nsteps
-        digests[i] = r.digest
-        ah = hashlib.sha256(
-            canon([[o.get("op"), o.get("inplace"), o.get("fault"), oc] for o, oc in zip(r.ops, r.outcomes)]).encode()
-        ).hexdigest()[:16]
-        shaf = sum(v for k, v in r.stats.c.items() if k.startswith("oracle/") and k != "oracle/value")
-        hist[ah] = (r.nsteps >= 2 and shaf > 0)
-        if r.shape is not None:
-            shapes.add(r.shape)
-        if want_ops and len(samples) < 1 and r.nsteps >= 3 and r.violation is None:
-            samples.append({"run": i, "config": r.config, "ops": r.ops[:12], "outcomes": r.outcomes[:12]})
-        if r.violation is not None:
-            key = _vkey(profile, r)
+        agg["steps"] += r["nsteps"]
+        digests[i] = r["digest"]
+        hist[r["ah"]] = hist.get(r["ah"], False) or r["nontrivial"]
+        if r["shape"] is not None:
+            shapes.add(r["shape"])
+        v = r["violation"]
+        if want_ops and len(samples) < 1 and r["nsteps"] >= 3 and v is None:
+            samples.append({"run": i, "config": r["config"], "ops": r["ops"][:12], "outcomes": r["outcomes"][:12]})
+        if v is not None:
+            key = v["sig"]
             entry = {
                 "run": i,
                 "sig": key,
-                "oracle": r.violation.oracle,
-                "message": r.violation.message[:2000],
-                "config": r.config,
-                "step": r.step,
-                "nops": len(r.ops),
-                "ops_full": r.ops,
-                "step_full": r.step,
-                "message_full": r.violation.message[:2000],
+                "oracle": v["oracle"],
+                "message": v["message"],
+                "config": r["config"],
+                "step": v["step"],
+                "nops": len(r["ops"]),
+                "ops_full": r["ops"],
+                "step_full": v["step"],
+                "message_full": v["message"],
             }
-            if sum(1 for v in viols if v["sig"] == key and "ops" in v) < 1:
+            if sum(1 for x in viols if x["sig"] == key and "ops" in x) < 1:
                 try:
-                    small = shrink(profile, r.config, r.ops, key)
-                    rr = execute_ops(profile, r.config, small)
-                    if _vkey(profile, rr) == key:
+                    small = shrink(profile, r["config"], r["ops"], key)
+                    rr = exec_isolated(profile, r["config"], small)
+                    if rr["key"] == key:
                         entry["ops"] = small
-                        entry["step"] = rr.step
-                        entry["message"] = rr.violation.message[:2000]
-                        entry["digest"] = rr.digest
+                        entry["step"] = rr["step"]
+                        entry["message"] = rr["message"]
+                        entry["digest"] = rr["digest"]
                     else:
-                        entry["ops"] = r.ops
+                        entry["ops"] = r["ops"]
                 except Exception:
-                    entry["ops"] = r.ops
+                    entry["ops"] = r["ops"]
                     entry["shrink_error"] = traceback.format_exc()
             viols.append(entry)
     return {
@@ -675,31 +753,29 @@ def run_check(profile, tier, seed, runs=None, workers=None, digests_only=False, 
     for path in sorted(glob.glob(os.path.join(VERIF, "findings", profile.prop, "*.json"))):
         try:
             doc = json.load(open(path))
-            r = execute_ops(profile, doc["config"], doc["ops"])
+            r = exec_isolated(profile, doc["config"], doc["ops"])
         except Exception:
             harness.append((-1, f"finding case {path}: " + traceback.format_exc()))
             continue
         agg["finding_cases"] += 1
-        if r.violation is not None:
-            key = _vkey(profile, r)
-            viols.append({"run": 800000, "sig": key, "oracle": r.violation.oracle, "message": r.violation.message[:2000],
-                          "config": doc["config"], "step": r.step, "nops": len(doc["ops"]), "ops": doc["ops"], "digest": r.digest})
+        if r["key"] is not None:
+            viols.append({"run": 800000, "sig": r["key"], "oracle": r["oracle"], "message": r["message"],
+                          "config": doc["config"], "step": r["step"], "nops": len(doc["ops"]), "ops": doc["ops"], "digest": r["digest"]})
         else:
             print(f"NOTE: recorded finding {os.path.basename(path)} no longer reproduces (repaired?)")
     nreg = 0
     for path in sorted(glob.glob(os.path.join(VERIF, "regress", profile.prop, "*.json"))):
         try:
             doc = json.load(open(path))
-            r = execute_ops(profile, doc["config"], doc["ops"])
+            r = exec_isolated(profile, doc["config"], doc["ops"])
         except Exception:
             harness.append((-1, f"regression case {path}: " + traceback.format_exc()))
             continue
         nreg += 1
         agg["regression_cases"] += 1
-        if r.violation is not None:
-            key = _vkey(profile, r)
-            viols.append({"run": 900000 + nreg, "sig": key, "oracle": r.violation.oracle, "message": r.violation.message[:2000],
-                          "config": doc["config"], "step": r.step, "nops": len(doc["ops"]), "ops": doc["ops"], "digest": r.digest})
+        if r["key"] is not None:
+            viols.append({"run": 900000 + nreg, "sig": r["key"], "oracle": r["oracle"], "message": r["message"],
+                          "config": doc["config"], "step": r["step"], "nops": len(doc["ops"]), "ops": doc["ops"], "digest": r["digest"]})
     # extra deterministic sweeps (e.g. C09 truncation sweeps) run in the parent
     det_mismatch = [i for i in det if digests.get(i) not in (None, det[i])]
     fresh_mismatch = []
